@@ -1209,13 +1209,16 @@ namespace bluetoe {
                     {
                         assert( read.buffer_size <= maximum_pdu_size );
 
+                        const bool first = first_;
+
                         if ( first_ )
                         {
                             size_   = read.buffer_size + header_size;
                             first_  = false;
                         }
 
-                        if ( read.buffer_size + header_size == size_ )
+                        // only the first value of a response might be truncated
+                        if ( read.buffer_size + header_size == size_ && ( first || !truncated( read, attr, index, max_data_size ) ) )
                         {
                             current_ = details::write_handle( current_, handle_index_mapping< Server >::handle_by_index( index ) );
                             current_ += static_cast< std::uint8_t >( read.buffer_size );
@@ -1252,6 +1255,18 @@ namespace bluetoe {
             bool empty() const
             {
                 return current_ == begin_;
+            }
+
+            // a value that fills the remaining buffer completely, might be larger than that buffer
+            bool truncated( const attribute_access_arguments& read, const details::attribute& attr, std::size_t index, std::size_t max_data_size )
+            {
+                if ( read.buffer_size != max_data_size )
+                    return false;
+
+                std::uint8_t one_more_byte;
+                auto probe = attribute_access_arguments::read( &one_more_byte, &one_more_byte + 1, read.buffer_size, config_, security_, &server_ );
+
+                return attr.access( probe, index ) == details::attribute_access_result::success && probe.buffer_size != 0;
             }
 
             std::uint8_t*   begin_;
